@@ -11,6 +11,11 @@
 #include "public/module/structs/map.h"
 
 #define MAP_SIZE_DEFAULT            (1 << 8)    /* 256 */
+#if defined(FEDEDP_LIBMODULE_VERIF) && defined(FEDEDP_LIBMODULE_VERIF_MAP_SIZE)
+/* verification hook: the whole-core model checking harnesses walk every slot of every map */
+#undef MAP_SIZE_DEFAULT
+#define MAP_SIZE_DEFAULT            FEDEDP_LIBMODULE_VERIF_MAP_SIZE
+#endif
 #define MAP_SIZE_MOD(map, val)      ((val) & ((map)->table_size - 1))
 
 /* Limit for probing is 1/2 of table_size */
